@@ -4,6 +4,8 @@ package natsrv
 
 import (
 	"fmt"
+	"io"
+	"net"
 	"sync"
 	"time"
 
@@ -55,3 +57,57 @@ func (s *Server) Connect() (*nats.Conn, error) { return nats.Connect(s.URL) }
 
 // Stop shuts the server down.
 func (s *Server) Stop() { s.S.Shutdown() }
+
+// Proxy is a TCP proxy in front of a server; cutting it makes clients reconnect while the
+// server (and clients connected directly) stay up.
+type Proxy struct {
+	ln     net.Listener
+	target string
+	mu     sync.Mutex
+	conns  []net.Conn
+}
+
+// NewProxy listens on a random loopback port and forwards to target ("host:port").
+func NewProxy(target string) (*Proxy, error) {
+	ln, err := net.Listen("tcp", "127.0.0.1:0")
+	if err != nil {
+		return nil, err
+	}
+	p := &Proxy{ln: ln, target: target}
+	go func() {
+		for {
+			c, err := ln.Accept()
+			if err != nil {
+				return
+			}
+			t, err := net.Dial("tcp", target)
+			if err != nil {
+				c.Close()
+				continue
+			}
+			p.mu.Lock()
+			p.conns = append(p.conns, c, t)
+			p.mu.Unlock()
+			go func() { io.Copy(t, c); t.Close(); c.Close() }()
+			go func() { io.Copy(c, t); t.Close(); c.Close() }()
+		}
+	}()
+	return p, nil
+}
+
+// URL is the nats URL of the proxy.
+func (p *Proxy) URL() string { return "nats://" + p.ln.Addr().String() }
+
+// Cut closes every connection going through the proxy.
+func (p *Proxy) Cut() {
+	p.mu.Lock()
+	cs := p.conns
+	p.conns = nil
+	p.mu.Unlock()
+	for _, c := range cs {
+		c.Close()
+	}
+}
+
+// Close stops the proxy.
+func (p *Proxy) Close() { p.ln.Close(); p.Cut() }
